@@ -126,6 +126,8 @@ class Tracer:
             self._install_stages()
         if "log" in groups:
             self._install_log()
+        if "torsion" in groups:
+            self._install_torsion()
 
     def _install_atoms(self):
         import pdb2pqr.aa as aa
@@ -136,8 +138,8 @@ class Tracer:
         tr = self
 
         def mk_add(orig):
-            def add_atom(res, atom):
-                r = orig(res, atom)
+            def add_atom(res, atom, *xa, **xk):
+                r = orig(res, atom, *xa, **xk)
                 n = tr.aid(atom)
                 tr.emit(e="new", a=n, p=tr.qpos(atom), name=atom.name, res=_rid(res), fr=tr.frame_name(2),
                         rc=type(res).__name__, hv=not _is_h(atom), rec=getattr(atom, "type", ""))
@@ -145,18 +147,18 @@ class Tracer:
             return add_atom
 
         def mk_remove(orig):
-            def remove_atom(res, atomname):
+            def remove_atom(res, atomname, *xa, **xk):
                 atom = res.map.get(atomname)
-                r = orig(res, atomname)
+                r = orig(res, atomname, *xa, **xk)
                 if atom is not None:
                     tr.emit(e="del", a=tr.aid(atom), name=atomname, res=_rid(res), fr=tr.frame_name(2))
                 return r
             return remove_atom
 
         def mk_rename(orig):
-            def rename_atom(res, oldname, newname):
+            def rename_atom(res, oldname, newname, *xa, **xk):
                 atom = res.map.get(oldname)
-                r = orig(res, oldname, newname)
+                r = orig(res, oldname, newname, *xa, **xk)
                 if atom is not None:
                     tr.emit(e="rename", a=tr.aid(atom), old=oldname, name=newname, res=_rid(res),
                             fr=tr.frame_name(2))
@@ -182,38 +184,38 @@ class Tracer:
             return tr.cells_ids[k][0]
 
         def mk_add(orig):
-            def add_cell(c, atom):
+            def add_cell(c, atom, *xa, **xk):
                 n = tr.aid(atom)
                 tr.flush_moves()
-                r = orig(c, atom)
+                r = orig(c, atom, *xa, **xk)
                 tr.emit(e="add", c=cid(c), a=n, key=list(atom.cell) if atom.cell is not None else None,
                         p=tr.qpos(atom), fr=tr.frame_name(2))
                 return r
             return add_cell
 
         def mk_rem(orig):
-            def remove_cell(c, atom):
+            def remove_cell(c, atom, *xa, **xk):
                 n = tr.aid(atom)
                 tr.flush_moves()
-                r = orig(c, atom)
+                r = orig(c, atom, *xa, **xk)
                 tr.emit(e="rem", c=cid(c), a=n, fr=tr.frame_name(2))
                 return r
             return remove_cell
 
         def mk_near(orig):
-            def get_near_cells(c, atom):
+            def get_near_cells(c, atom, *xa, **xk):
                 n = tr.aid(atom)
                 tr.flush_moves()
-                r = orig(c, atom)
+                r = orig(c, atom, *xa, **xk)
                 tr.emit(e="query", c=cid(c), a=n, res=[tr.aid(b) for b in r], fr=tr.frame_name(2))
                 return r
             return get_near_cells
 
         def mk_assign(orig):
-            def assign_cells(c, biomolecule):
+            def assign_cells(c, biomolecule, *xa, **xk):
                 tr.flush_moves()
                 tr.emit(e="assign", c=cid(c))
-                return orig(c, biomolecule)
+                return orig(c, biomolecule, *xa, **xk)
             return assign_cells
 
         self._patch(cells.Cells, "add_cell", mk_add)
@@ -221,6 +223,58 @@ class Tracer:
         self._patch(cells.Cells, "get_near_cells", mk_near)
         self._patch(cells.Cells, "assign_cells", mk_assign)
 
+
+    def _install_torsion(self):
+        """before/after coordinates of the residue for every Debump.set_dihedral_angle / Residue.rotate_tetrahedral"""
+        import pdb2pqr.debump as debump
+        import pdb2pqr.residue as presidue
+
+        tr = self
+
+        def snap(res):
+            return {a.name: (a.x, a.y, a.z) for a in res.atoms}
+
+        def bonds_of(res):
+            names = set(a.name for a in res.atoms)
+            out = set()
+            for a in res.atoms:
+                for b in a.bonds:
+                    if getattr(b, "residue", None) is res and b.name in names and b.name != a.name:
+                        out.add(tuple(sorted((a.name, b.name))))
+            return sorted(out)
+
+        def mk_dih(orig):
+            def set_dihedral_angle(deb, residue, anglenum, angle, *extra, **kw):
+                before = snap(residue)
+                try:
+                    names = residue.reference.dihedrals[anglenum].split()
+                except Exception:
+                    names = []
+                r = orig(deb, residue, anglenum, angle, *extra, **kw)
+                tr.emit(e="turn", routine="set_dihedral_angle", res=_rid(residue), dih=names, want=angle, before=before,
+                        after=snap(residue), bonds=bonds_of(residue), backbone=[a.name for a in residue.atoms if getattr(a, "is_backbone", False)],
+                        nterm=bool(getattr(residue, "is_n_term", 0)), cterm=bool(getattr(residue, "is_c_term", 0)),
+                        stage=tr.cur_stage, fr=tr.frame_name(2), anglenum=anglenum)
+                return r
+            return set_dihedral_angle
+
+        def mk_tet(orig):
+            f = orig.__func__ if hasattr(orig, "__func__") else orig
+
+            def rotate_tetrahedral(cls, atom1, atom2, angle, *extra, **kw):
+                res = getattr(atom2, "residue", None)
+                before = snap(res) if res is not None else {}
+                r = f(cls, atom1, atom2, angle, *extra, **kw)
+                if res is not None:
+                    tr.emit(e="turn", routine="rotate_tetrahedral", res=_rid(res), dih=["", atom1.name, atom2.name, ""], want=angle,
+                            before=before, after=snap(res), bonds=bonds_of(res),
+                            backbone=[a.name for a in res.atoms if getattr(a, "is_backbone", False)],
+                            nterm=bool(getattr(res, "is_n_term", 0)), cterm=bool(getattr(res, "is_c_term", 0)), stage=tr.cur_stage,
+                            fr=tr.frame_name(2), anglenum=-1)
+                return r
+            return classmethod(rotate_tetrahedral)
+        self._patch(debump.Debump, "set_dihedral_angle", mk_dih)
+        self._patch(presidue.Residue, "rotate_tetrahedral", mk_tet)
 
     def _install_log(self):
         import logging
